@@ -19,6 +19,9 @@ RULE = ("0..3*dw+1 events, dw in {3,8,16}, alignment 0-3 (thorough adds dw in {1
         "write-one-to-clear) with sources toggling every cycle and triggers forced into the very cycle the clear takes "
         "effect, 4-5 the same with aborts, interleaved accesses to the other register, simultaneous read+write and "
         "unmapped addresses, 6 every input bit random each cycle, 7 constructor corner/refusal cases with a short trace. "
+        "~30% of the non-constructor cases get 1-3 mid-run synchronous resets (between the chunks of a write, in the cycle "
+        "of / after a last chunk, in a first-chunk read cycle, source lines held high through it): afterwards nothing is "
+        "enabled or pending, edge detectors restart from low, open transactions are void. "
         "Non-trivial: >= 1 source, >= 1 completed enable write later read back, >= 1 completed clear whose written ones "
         "hit a pending bit, >= 1 trigger landing in the cycle of a clear of the same bit, src.i seen low and high.")
 MODES = ["level", "rise", "fall"]
